@@ -53,6 +53,15 @@ type c06Case struct {
 	Slow1    *vfdSlowSpec `json:"slow_first,omitempty"`
 	Reshares []c06Reshare `json:"reshares"`
 	Sched    vfdSched     `json:"sched"`
+	Family   string       `json:"family"` // "" | silent-participant | late-execute
+	// silent-participant: one participant of epoch SilentEpoch (not the one with the largest key) is unreachable
+	// and mute from just before the execution is started (a crash): the others complete with a strict subset.
+	SilentEpoch int `json:"silent_epoch,omitempty"`
+	SilentRaw   int `json:"silent_raw,omitempty"`
+	// late-execute: in reshare HoldReshare (0-based) the execute packet towards one follower arrives HoldMs late
+	// (after the kick-off time), followed in order by everything that was sent to it meanwhile.
+	HoldMs  int `json:"hold_ms,omitempty"`
+	HoldRaw int `json:"hold_raw,omitempty"`
 }
 
 const (
@@ -72,8 +81,85 @@ func c06SlowSpec(rng *vfRng, nParticipants int) *vfdSlowSpec {
 		DelayMs: rng.Range(300, 900), Async: rng.Chance(60)}
 }
 
+func c06Clamp(v, lo, hi int) int {
+	if v < lo {
+		return lo
+	}
+	if v > hi {
+		return hi
+	}
+	return v
+}
+
+// c06MakeFamilyCase: the two directed families (every 6th case each).
+func c06MakeFamilyCase(idx int, fam string) c06Case {
+	cs := vfCaseSeed(vfSeed(), "C06", idx)
+	rng := vfNewRng(cs)
+	schemes := crypto.ListSchemes()
+	off := int(vfSeed() % 35)
+	c := c06Case{Index: idx, Seed: cs, Family: fam}
+	c.Scheme = schemes[(idx/6+off)%len(schemes)]
+	c.BeaconID = []string{"default", "vfnet"}[rng.Intn(2)]
+	c.Sched = vfdSched{GossipDelayMs: rng.Range(0, 80), BundleDelayMs: rng.Range(0, 50),
+		DupPct: []int{100, 50, 0}[rng.Intn(3)], DupDelayMs: rng.Range(0, 150), AsyncPct: []int{0, 25}[rng.Intn(2)]}
+	switch fam {
+	case "silent-participant":
+		c.N = 4 + (idx/6+off)%4
+		c.T = rng.Range(c06MinT(c.N), c.N-1) // the n-1 others must be able to complete
+		c.Period = []int{1, 2, 3, 5}[rng.Intn(4)]
+		c.Catchup = rng.Range(0, c.Period)
+		c.SilentEpoch = 1 + rng.Intn(2)
+		c.SilentRaw = rng.Intn(1 << 20)
+		var rs c06Reshare
+		if c.SilentEpoch == 1 {
+			// the reshare is run by the n-1 nodes that came out of the first epoch
+			n2 := c.N - 1
+			rs = c06Reshare{Kind: "same", NewT: c06Clamp(c.T, c06MinT(n2), n2)}
+			rs.Slow = c06SlowSpec(rng, n2)
+		} else {
+			switch rng.Intn(3) {
+			case 0:
+				rs.Kind = "same"
+			case 1:
+				rs.Kind, rs.Add = "+1", 1
+			default:
+				if c.N-1 >= 4 && c.N-1 >= c.T {
+					rs.Kind, rs.Remove = "-1", 1
+				} else {
+					rs.Kind, rs.Add = "+1", 1
+				}
+			}
+			n2 := c.N - rs.Remove + rs.Add
+			rs.NewT = rng.Range(c06MinT(n2), n2-1)
+		}
+		c.Reshares = []c06Reshare{rs}
+	case "late-execute":
+		c.N = 3 + (idx/6+off)%4
+		c.T = rng.Range(c06MinT(c.N), c.N)
+		c.Period = 1
+		c.Catchup = rng.Range(0, 1)
+		c.Slow1 = c06SlowSpec(rng, c.N)
+		rs := c06Reshare{Kind: "same", NewT: c.T}
+		if rng.Chance(40) {
+			rs.Kind, rs.Add = "+1", 1
+			rs.NewT = rng.Range(c06MinT(c.N+1), c.N+1)
+		}
+		c.Reshares = []c06Reshare{rs}
+		// the follower starts HoldMs - kick-off grace late: more than half a period, less than a DKG phase
+		c.HoldMs = rng.Range(1600, 2500)
+		c.HoldRaw = rng.Intn(1 << 20)
+	}
+	return c
+}
+
 // c06MakeCase: every parameter is a pure function of (seed, index).
 func c06MakeCase(idx int) c06Case {
+	switch idx % 6 {
+	case 3:
+		return c06MakeFamilyCase(idx, "silent-participant")
+	case 5:
+		return c06MakeFamilyCase(idx, "late-execute")
+	}
 	cs := vfCaseSeed(vfSeed(), "C06", idx)
 	rng := vfNewRng(cs)
 	schemes := crypto.ListSchemes()
@@ -192,11 +278,24 @@ func TestVF_C06_DKGNet(t *testing.T) {
 }
 
 type c06Ctx struct {
-	run   *vfRun
-	c     c06Case
-	net   *vfdNet
-	rng   *vfRng
-	epoch uint32
+	run    *vfRun
+	c      c06Case
+	net    *vfdNet
+	rng    *vfRng
+	epoch  uint32
+	silent *vfdNode // the participant of the current epoch that is mute (nil: none)
+}
+
+// pickSilent: the participant with rank (raw mod n-1) in the byte order of the keys, i.e. never the largest key.
+func (x *c06Ctx) pickSilent(participants []*vfdNode) *vfdNode {
+	rank := vfdRankByKey(participants)
+	want := uint32(x.c.SilentRaw % (len(participants) - 1))
+	for _, nd := range participants {
+		if rank[nd.addr] == want {
+			return nd
+		}
+	}
+	return nil
 }
 
 func (x *c06Ctx) info(extra map[string]any) map[string]any {
@@ -243,7 +342,7 @@ func c06RunCase(run *vfRun, base string, c c06Case) {
 		nw.mu.Lock()
 		k := len(nw.order)
 		nw.mu.Unlock()
-		nd, err := nw.addNode(fmt.Sprintf("vf%d.test:%d", k, 4000+k), keyRng, false)
+		nd, err := nw.addNode(fmt.Sprintf("vf%d.test:%d", k, 4000+k), keyRng, true)
 		if err != nil {
 			panic("harness: addNode: " + err.Error())
 		}
@@ -262,7 +361,7 @@ func c06RunCase(run *vfRun, base string, c c06Case) {
 			for _, r := range c.Reshares {
 				kinds = append(kinds, r.Kind)
 			}
-			key = fmt.Sprintf("%s/n%d/t%d/p%d/%s/%s/e%d", c.Scheme, c.N, c.T, c.Period, strings.Join(kinds, ";"), nw.schedHash()[:12], completedEpochs)
+			key = fmt.Sprintf("%s/n%d/t%d/p%d/%s/%s/e%d/%s", c.Scheme, c.N, c.T, c.Period, strings.Join(kinds, ";"), nw.schedHash()[:12], completedEpochs, c.Family)
 		}
 		run.Eval(key)
 		run.Seen("schedules", nw.schedHash())
@@ -272,7 +371,10 @@ func c06RunCase(run *vfRun, base string, c c06Case) {
 
 	// ---- epoch 1: the harness issues the first proposal itself, genesis = now + 3 s
 	x.epoch = 1
-	leader := members[x.rng.Intn(len(members))]
+	if c.Family == "silent-participant" && c.SilentEpoch == 1 {
+		x.silent = x.pickSilent(members)
+	}
+	leader := c06Without(members, x.silent)[x.rng.Intn(len(c06Without(members, x.silent)))]
 	listed := vfdShuffled(x.rng, members)
 	x.applySlow(c.Slow1, listed)
 	genesis := time.Now().Add(3 * time.Second).Truncate(time.Second)
@@ -294,6 +396,10 @@ func c06RunCase(run *vfRun, base string, c c06Case) {
 			return
 		}
 	}
+	if x.silent != nil {
+		x.silent.broken.Store(true) // crashed: unreachable, and (receiving nothing) mute
+		run.Count("epochs_with_a_silent_participant", 1)
+	}
 	nw.maxLatNs.Store(0)
 	nw.resetLag()
 	if err := leader.cmdExecute(); err != nil {
@@ -309,6 +415,16 @@ func c06RunCase(run *vfRun, base string, c c06Case) {
 	completedEpochs++
 	seed := states[0].FinalGroup.GetGenesisSeed()
 	prevGroup := states[0].FinalGroup
+	x.silent = nil
+	{
+		var in []*vfdNode
+		for _, nd := range members {
+			if prevGroup.Find(nd.kp.Public) != nil {
+				in = append(in, nd)
+			}
+		}
+		members = in
+	}
 	if len(states) != len(members) || len(prevGroup.Nodes) != len(members) {
 		run.Count("cases_stopped_after_partial_epoch", 1)
 		return
@@ -330,8 +446,21 @@ func c06RunCase(run *vfRun, base string, c c06Case) {
 			joining = append(joining, newNode())
 		}
 		participants := append(append([]*vfdNode{}, remaining...), joining...)
-		rleader := remaining[x.rng.Intn(len(remaining))]
+		x.silent = nil
+		if c.Family == "silent-participant" && c.SilentEpoch == ri+2 && len(participants) >= 3 {
+			x.silent = x.pickSilent(participants)
+		}
+		rcand := c06Without(remaining, x.silent)
+		rleader := rcand[x.rng.Intn(len(rcand))]
 		x.applySlow(rs.Slow, participants)
+		if c.Family == "late-execute" && ri == 0 {
+			followers := c06Without(participants, rleader)
+			if len(followers) > 0 {
+				f := followers[c.HoldRaw%len(followers)]
+				nw.setHold(f.addr, time.Duration(c.HoldMs)*time.Millisecond)
+				run.Count("epochs_with_a_late_execute_packet", 1)
+			}
+		}
 		if err := rleader.cmdReshare(uint32(rs.NewT), uint32(c.Catchup), time.Now().Add(time.Minute),
 			vfdParts(vfdShuffled(x.rng, joining)), vfdParts(vfdShuffled(x.rng, remaining)), vfdParts(vfdShuffled(x.rng, leaving))); err != nil {
 			if !(len(participants) == 1 && strings.Contains(err.Error(), "gossip recipients was empty")) {
@@ -359,6 +488,10 @@ func c06RunCase(run *vfRun, base string, c c06Case) {
 				return
 			}
 		}
+		if x.silent != nil {
+			x.silent.broken.Store(true)
+			run.Count("epochs_with_a_silent_participant", 1)
+		}
 		nw.maxLatNs.Store(0)
 		nw.resetLag()
 		if err := rleader.cmdExecute(); err != nil {
@@ -368,6 +501,7 @@ func c06RunCase(run *vfRun, base string, c c06Case) {
 		exp.thr = rs.NewT
 		exp.seed = seed
 		states, ok := x.waitAndCheck(participants, exp, prevGroup)
+		nw.clearHold()
 		if !ok {
 			return
 		}
@@ -386,6 +520,19 @@ func c06RunCase(run *vfRun, base string, c c06Case) {
 			return
 		}
 	}
+}
+
+func c06Without(l []*vfdNode, x *vfdNode) []*vfdNode {
+	if x == nil {
+		return l
+	}
+	var out []*vfdNode
+	for _, nd := range l {
+		if nd != x {
+			out = append(out, nd)
+		}
+	}
+	return out
 }
 
 func c06In(l []*vfdNode, nd *vfdNode) bool {
@@ -417,6 +564,8 @@ type c06NodeView struct {
 // real databases and applies the oracle. Returns the finished states of the completing nodes (participant order).
 func (x *c06Ctx) waitAndCheck(participants []*vfdNode, exp c06Expect, prev *key.Group) ([]*DBState, bool) {
 	run := x.run
+	all := participants
+	participants = c06Without(participants, x.silent) // the mute one neither completes nor fails
 	out := vfdWaitOutcome(participants, x.epoch, 40*time.Second)
 	// the traffic of this epoch (late duplicates, queued echoes, gossip retries) must be gone before the next
 	// proposal: epochs of a real network are hours apart, a bundle of epoch e arriving during epoch e+1 is not a
@@ -469,7 +618,12 @@ func (x *c06Ctx) waitAndCheck(participants []*vfdNode, exp c06Expect, prev *key.
 		run.Inconclusive(fmt.Sprintf("case %d epoch %d: eviction/failure while the box was not keeping time (timer lag %v)", x.c.Index, x.epoch, lag))
 		return nil, false
 	}
-	x.oracle(views, participants, exp, prev, nFailed)
+	if x.silent != nil {
+		if len(views[0].state.FinalGroup.Nodes) < len(all) {
+			run.Count("epochs_completed_by_a_strict_subset", 1)
+		}
+	}
+	x.oracle(views, all, exp, prev, nFailed)
 	states := make([]*DBState, len(views))
 	for i, v := range views {
 		states[i] = v.state
@@ -577,17 +731,48 @@ func (x *c06Ctx) oracle(views []c06NodeView, participants []*vfdNode, exp c06Exp
 			}
 			variant := "other"
 			ps := int64(exp.period / time.Second)
-			if x.epoch > 1 && ps > 0 && d%ps == 0 {
-				variant = "completion-straddles-round-boundary"
-			}
-			tts := map[string]int64{}
+			// what was observed: the instant at which each node's SaveFinished of this epoch returned (store tap),
+			// as beacon rounds. The real code samples time.Now() a moment BEFORE that write; "same round" is
+			// only claimed when every completion lies >= 300 ms inside one and the same round and the box kept time.
+			tts, rounds, offs := map[string]int64{}, map[string]int64{}, map[string]int64{}
+			sameRound, solid, first := true, true, int64(-1)
 			for _, w := range views {
 				tts[w.nd.addr] = w.state.FinalGroup.TransitionTime
+				var at time.Time
+				if w.nd.tap != nil {
+					at = w.nd.tap.finishedAt(x.epoch)
+				}
+				if at.IsZero() || ps <= 0 {
+					solid = false
+					continue
+				}
+				since := at.Sub(time.Unix(exp.genesis, 0))
+				r := int64(since / exp.period)
+				off := int64((since % exp.period) / time.Millisecond)
+				rounds[w.nd.addr], offs[w.nd.addr] = r+1, off
+				if first < 0 {
+					first = r
+				} else if r != first {
+					sameRound = false
+				}
+				if since < 0 || off < 300 {
+					solid = false
+				}
+			}
+			if x.net.lag() > 150*time.Millisecond {
+				solid = false
+			}
+			if x.epoch > 1 && ps > 0 && d%ps == 0 {
+				variant = "completion-straddles-round-boundary"
+				if sameRound && solid {
+					variant = "completions-in-same-round"
+				}
 			}
 			run.Violation("C06/transition-time-disagrees/"+variant,
-				fmt.Sprintf("epoch %d (%s, period %v): nodes completed the same epoch with transition times %d (%s) and %d (%s); group hashes %x / %x",
-					x.epoch, phase, exp.period, rg.TransitionTime, ref.nd.addr, g.TransitionTime, v.nd.addr, rg.Hash()[:6], g.Hash()[:6]),
-				x.info(map[string]any{"transition_times": tts, "slow": x.net.sched.Slow}))
+				fmt.Sprintf("epoch %d (%s, period %v): nodes completed the same epoch with transition times %d (%s) and %d (%s); group hashes %x / %x; completion rounds %v (ms into the round %v)",
+					x.epoch, phase, exp.period, rg.TransitionTime, ref.nd.addr, g.TransitionTime, v.nd.addr, rg.Hash()[:6], g.Hash()[:6], rounds, offs),
+				x.info(map[string]any{"transition_times": tts, "completion_rounds": rounds, "completion_ms_into_round": offs,
+					"slow": x.net.sched.Slow, "timer_lag_ms": x.net.lag().Milliseconds()}))
 		}
 		ha, hb := rg.Hash(), g.Hash()
 		if !bytes.Equal(ha, hb) {
@@ -637,6 +822,9 @@ func (x *c06Ctx) oracle(views []c06NodeView, participants []*vfdNode, exp c06Exp
 	}
 	if !evicted && nFailed == 0 && len(views) != len(participants) {
 		chk("node-set", false, "missing completions")
+	}
+	if x.silent != nil && rg.Find(x.silent.kp.Public) == nil && len(rg.Nodes) == len(participants)-1 {
+		run.Count("groups_equal_to_participants_minus_the_silent_one", 1)
 	}
 	// ---------- (3) each node's share lies on the public polynomial at its own index
 	sch := rg.Scheme
